@@ -99,6 +99,9 @@ impl Vm {
     }
 
     pub fn prepare_eval(&mut self, cell: &Cell) -> Result<(), Error> {
+        // A form that fails to compile has no stack trace of its own; it must not
+        // report the trace of an earlier failure.
+        self.last_stacktrace = None;
         let lambda = match self.compile_runnable(cell) {
             Ok(lambda) => lambda,
             Err(e) => {
@@ -125,6 +128,8 @@ impl Vm {
     /// # Arguments
     /// `text` - The text to eval
     pub fn eval_text<'a>(&mut self, text: &'a str) -> Result<(Cell, Option<&'a str>), Error> {
+        // text that cannot be read evaluates nothing and has no stack trace
+        self.last_stacktrace = None;
         let (cell, remaining_text) = parse::parse_text(text)?;
         self.prepare_eval(&cell)?;
         Ok((self.run()?, remaining_text))
